@@ -45,6 +45,11 @@ CHECKS = {
    text="Per call the status, record, size, the whole slot array, count, n_entries and the callback-argument log are compared with the model; churn generators hold the live count between the thresholds so that empty slots run out; "
         "each call runs under a CPU watchdog. Side conditions on the regenerated constants are proved; probe termination, map refinement and callback-role theorems are being added.",
    note="User equality is key identity; equal keys have equal codes (API contract).", ref="§5 C03"),
+ "C06": dict(cat="translation_validation", tech="Lean 4 executable AVL model (node identity, stored balance factors, the C rotations) validated white-box against the implementation after every call; balance/refinement theorems in progress",
+   text="After every insert/find/remove/walk/free the whole shape (node id, key, balance factor, parent id), size and comparator-call count are compared with the model, under random/ascending/descending/zig-zag key orders, "
+        "duplicates on and off and positional removal targets; the harness checks iterator stability, destroy-once, callback user data and allocator balance on the implementation itself. Theorems (balanced, sorted-multiset refinement, "
+        "fib height bound, find ≤ height comparisons) are being added.",
+   note="Parent-pointer stepping (iter_next/prev) is compared through full walks, not modelled as pointer code.", ref="§5 C06"),
 }
 
 NOT_YET = "check not built yet in this revision (framework under construction; see DESIGN.md §8)"
